@@ -365,7 +365,32 @@ impl num_traits::real::Real for Q {
     fn sin(self) -> Q { self.cos_sin().1 }
     fn cos(self) -> Q { self.cos_sin().0 }
     fn tan(self) -> Q { let (c, s) = self.cos_sin(); s / c }
-    fn asin(self) -> Q { unsup("asin") }
+    fn asin(self) -> Q {
+        // the angle in [-pi/2, pi/2] with this sine, when it is a registered token
+        if !self.is_plain() { unsup("asin of non-plain") }
+        if self.n == 0 { return Q::int(0); }
+        if self == Q::int(1) { return Q::pi_mul(1, 2); }
+        if self == Q::int(-1) { return Q::pi_mul(-1, 2); }
+        for b in 0..BASES.len() {
+            for k in 1..=12i64 {
+                let a = Q::angle(b as u8, k);
+                if a.approx() > std::f64::consts::FRAC_PI_2 { break; }
+                let s = a.cos_sin().1;
+                if s == self { return a; }
+                if s == -self { return -a; }
+            }
+            // sines of angles beyond a quarter turn belong to pi - k*phi, whose arcsine is the supplement
+            for k in 1..=12i64 {
+                let a = Q::angle(b as u8, k);
+                if a.approx() <= std::f64::consts::FRAC_PI_2 { continue; }
+                if a.approx() > std::f64::consts::PI { break; }
+                let s = a.cos_sin().1;
+                if s == self { return Q::pi_mul(1, 1) - a; }
+                if s == -self { return a - Q::pi_mul(1, 1); }
+            }
+        }
+        unsup("asin of an unregistered sine")
+    }
     fn acos(self) -> Q {
         if !self.is_plain() { unsup("acos of non-plain") }
         if self == Q::int(1) { return Q::int(0); }
